@@ -142,12 +142,12 @@ func runPairStall(a *args, res *result) {
 		kinds = []string{"Cache", "CacheOf[int,val]"}
 	case "C12":
 		kinds = []string{"Map", "MapOf[string,any]", "Cache", "CacheOf[string,any]"}
-	case "C05", "C11":
+	case "C05", "C11", "C13":
 		kinds = []string{"Map", "MapOf[int,val]", "Cache", "CacheOf[int,val]"}
 	}
 	keepR := func(name string) bool { return true }
 	keepW := func(name string) bool { return true }
-	if a.prop == "C05" || a.prop == "C11" || a.prop == "C12" {
+	if a.prop == "C05" || a.prop == "C11" || a.prop == "C12" || a.prop == "C13" {
 		// a lighter selection: the resizes that matter for "nothing lost across a retry"
 		keepR = func(name string) bool { return name != "shrink-batch" && name != "clear" }
 		keepW = func(name string) bool { return name == "compute-insert" || name == "update" || name == "delete" }
